@@ -3,15 +3,20 @@ package segment
 import (
 	"encoding/binary"
 	"hash/crc32"
+	"os"
+	"strings"
 	"testing"
 
 	"github.com/hashicorp/raft-wal/types"
 )
 
-// TestReview2FirstCommitCRCCoverage decodes a freshly written segment using
-// only what README.md documents: "CRC32 (Castagnoli) over all bytes written
-// since the last fsync. That is, since just after the last commit frame, or
-// just after the file header."
+// D23 (C09): TestReview2FirstCommitCRCCoverage decodes a freshly written
+// segment using only what ../README.md documents about the range a commit
+// frame's CRC covers. The original text read "since just after the last commit
+// frame, or just after the file header" - but the writer includes the 32 header
+// bytes in the first commit's CRC, so a decoder built from that text rejected
+// the first commit of every segment. The test follows the README as it reads
+// now (it starts the first batch at 0 only if the README says so).
 func TestReview2FirstCommitCRCCoverage(t *testing.T) {
 	vfs := newTestVFS()
 	f := NewFiler("test", vfs)
@@ -32,6 +37,10 @@ func TestReview2FirstCommitCRCCoverage(t *testing.T) {
 	// README decoder: header is 32 bytes, frames are 8-byte aligned.
 	off := 32
 	batchStart := off // "just after the file header"
+	if doc, err := os.ReadFile("../README.md"); err == nil &&
+		strings.Contains(strings.Join(strings.Fields(string(doc)), " "), "since the start of the file: the file header is written as part of the first batch") {
+		batchStart = 0 // the corrected README: the first commit covers the header
+	}
 	commits := 0
 	for off+8 <= len(buf) {
 		typ := buf[off]
@@ -43,7 +52,7 @@ func TestReview2FirstCommitCRCCoverage(t *testing.T) {
 			commits++
 			want := crc32.Checksum(buf[batchStart:off], tab)
 			if want != val {
-				t.Errorf("commit #%d at offset %d: stored CRC %08x, CRC over bytes [%d,%d) as documented is %08x (CRC over [0,%d) is %08x)",
+				t.Errorf("REPLAY-CONFIRMED C09: commit #%d at offset %d: stored CRC %08x, CRC over bytes [%d,%d) as documented is %08x (CRC over [0,%d) is %08x)",
 					commits, off, val, batchStart, off, want, off, crc32.Checksum(buf[0:off], tab))
 			}
 			off += 8
